@@ -50,6 +50,11 @@ def run_property(prop, tier):
         for spec in mod.DEFERRED_BUNDLES:
             mod.RULES += bundle(spec["prop"], spec["tag"], spec["module"], only=spec.get("only"), skip=spec.get("skip", ()), why=spec.get("why", ""))
         mod._bundles_resolved = True
+    if not getattr(mod, "_order_added", False):
+        from . import order
+        if prop in order.PREFIXES:
+            mod.RULES.append(("%s.ORDER" % prop, order.DOC, order.rule_order(order.PREFIXES[prop])))
+        mod._order_added = True
     recorders = []
     try:
         fdir = engine.extract()
